@@ -1,5 +1,5 @@
 (* C15 - Encoding then decoding (and decoding then encoding) is the identity. *)
-From Ctap Require Import Base Schema Wire Utf8 Typed WellTyped Procs Inst Tables Limits WireP TypedP FramingP SerP RoundTripP ObSerRole ObDeRole ObEnvRt FnShapes Shapes ObShapeFilters.
+From Ctap Require Import Base Schema Wire Utf8 Typed WellTyped Procs Inst Tables Limits WireP TypedP FramingP SerP RoundTripP ObSerRole ObDeRole ObEnvRt FnShapes Shapes ObShapeFilters Deps ObDeps.
 Local Open Scope string_scope.
 Local Open Scope Z_scope.
 
@@ -114,6 +114,10 @@ Proof. vm_compute. reflexivity. Qed.
 Theorem c15_modelled_functions_unchanged_filters : shapes_hold fn_shapes shapes_filters = true.
 Proof. exact generated_shapes_filters. Qed.
 
+(* the third-party crates the model represents by hand are pinned at the versions it was written against *)
+Theorem c15_modelled_dependencies_pinned : deps_hold lock_versions cargo_deps = true.
+Proof. exact generated_deps. Qed.
+
 Eval vm_compute in "ASSUMPTIONS c15_bidirectional_set". Print Assumptions c15_bidirectional_set.
 Eval vm_compute in "ASSUMPTIONS c15_generated_ser". Print Assumptions c15_generated_ser.
 Eval vm_compute in "ASSUMPTIONS c15_generated_de". Print Assumptions c15_generated_de.
@@ -131,3 +135,4 @@ Eval vm_compute in "ASSUMPTIONS c15_generated_declarations_wellformed". Print As
 Eval vm_compute in "ASSUMPTIONS c15_roundtrip_all_features". Print Assumptions c15_roundtrip_all_features.
 Eval vm_compute in "ASSUMPTIONS c15_example_in_domain". Print Assumptions c15_example_in_domain.
 Eval vm_compute in "ASSUMPTIONS c15_modelled_functions_unchanged_filters". Print Assumptions c15_modelled_functions_unchanged_filters.
+Eval vm_compute in "ASSUMPTIONS c15_modelled_dependencies_pinned". Print Assumptions c15_modelled_dependencies_pinned.
